@@ -6,6 +6,8 @@
   tools/props/c12.py), over ANY linearly ordered field `τ` of times and ANY group `G` of values; the
   segment curve `C.cev` is an arbitrary function with `c_V(0) = 1` (`GroupKer`).
 
+  (`ConstVelKer`, the hypothesis of the constant-velocity law, is defined in SmoothProofs/C12More.lean and is a
+  THEOREM for the cumulative Bernstein basis: `constant_velocity_law_bernstein`.)
   Proved: the invariant after every constructor, under concatenation AND crop, for any operation list
   (`reachable_inv_ops`); which segment is evaluated, values outside the range, continuity at knots; the
   two concatenation laws; the crop law in all cases (any segments, knots, localised or not);
@@ -14,6 +16,8 @@
 import SmoothProofs.C12Witness
 import SmoothProofs.C12Ops
 import SmoothProofs.C12More
+import SmoothProofs.C12Bernstein
+import SmoothProofs.C12Arc
 
 set_option linter.unusedSectionVars false
 
@@ -145,11 +149,6 @@ theorem concat_global_law (hK : GroupKer C) (s o : Spline τ G W) (hs : Inv C s)
 
 /-! ## ConstantVelocity, FixedCubic -/
 
-/-- hypothesis of the constant-velocity theorems: K equal control velocities `s·v` give `exp(K u s · v)`
-    (the basis identity `Σⱼ B̃ⱼ(u) = K u`, property C20, and `exp` additive on a line) -/
-def ConstVelKer (C : Ker τ G W) (expo : τ → W → G) : Prop :=
-  ∀ (s : τ) (v : W) (u : τ), C.c (List.replicate C.K (C.wsmul s v)) u = expo ((C.K : τ) * u * s) v
-
 /-- `ConstantVelocity(v,T,ga)(t) = ga ∘ exp(t v)` on `[0,T]`, for every degree K ≥ 1 -/
 theorem constant_velocity_law (hK : GroupKer C) (expo : τ → W → G) (hKpos : 0 < C.K) (hcv : ConstVelKer C expo)
     (v : W) {T : τ} (hT : 0 < T) (ga : G) {t : τ} (ht0 : 0 ≤ t) (ht : t ≤ T) :
@@ -184,6 +183,34 @@ theorem fixed_cubic_end_pose (hK : GroupKer C)
   refine ⟨?_, rfl⟩
   simp only [fixedCubic, ctor, endG, List.getLast?_singleton, tone, hK.mul_eq, hK.inv_eq, hc1, hexp, hneg]
   group
+
+/-- FixedCubic has body velocity `va` at `t = 0` and `vb` at `t = T`, given `c_V'(0) = 3·V₀`, `c_V'(1) = 3·V₂`
+    (cubic cumulative Bernstein basis: `B̃₁'(0) = B̃₃'(1) = 3`, the other `B̃ⱼ'` vanish there; the adjoint terms of
+    C11's velocity recursion drop out because `exp(B̃ⱼ vⱼ) = 1` at those points) -/
+theorem fixed_cubic_end_velocities [AddCommGroup W] [Module τ W] (hsm : ∀ (s : τ) (v : W), C.wsmul s v = s • v)
+    (hdv : ∀ (v : W) (s : τ), C.wdivs v s = s⁻¹ • v)
+    (hc0 : ∀ a b c : W, (C.cev [a, b, c] 0).2.1 = (3 : τ) • a) (hc1 : ∀ a b c : W, (C.cev [a, b, c] 1).2.1 = (3 : τ) • c)
+    (gb : G) (va vb : W) {T : τ} (hT : 0 < T) (ga : G) :
+    (eval C (fixedCubic C gb va vb T ga) 0).2.1 = va ∧ (eval C (fixedCubic C gb va vb T ga) T).2.1 = vb :=
+  fixedCubic_velocities hsm hdv hc0 hc1 gb va vb hT ga
+
+/-! ## make_local -/
+
+/-- what `make_local()` guarantees (it only resets `m_g0`): start at the identity, same `t_max` and `end()`;
+    on the FIRST segment `y(t) = x.start()⁻¹ ∘ x(t)` with the velocity and acceleration of `x`; from the first
+    knot on `y(t) = x(t)` unchanged.  Hence `y = x` (and the invariant is kept) iff `x` started at the identity;
+    otherwise the curve jumps by `x.start()` at the first knot (at `t_max` for a single segment: `end()` is kept). -/
+theorem make_local_law (hK : GroupKer C) (x : Spline τ G W) (sg : Seg τ G W) (post : List (Seg τ G W))
+    (hx : x.segs = sg :: post) (hI : Inv C x) :
+    start (makeLocal C x) = 1 ∧ tMax (makeLocal C x) = tMax x ∧ endG (makeLocal C x) = endG x ∧
+    (∀ t, 0 ≤ t → (t < sg.tEnd ∨ (post = [] ∧ t ≤ sg.tEnd)) →
+      eval C (makeLocal C x) t = (x.g0⁻¹ * val C x t, (eval C x t).2.1, (eval C x t).2.2)) ∧
+    (∀ t, sg.tEnd ≤ t → post ≠ [] → eval C (makeLocal C x) t = eval C x t) ∧
+    (x.g0 = 1 → makeLocal C x = x ∧ Inv C (makeLocal C x)) := by
+  obtain ⟨h1, h2, h3, h4, h5⟩ := makeLocal_spec hK x sg post hx hI
+  refine ⟨h1, h2, h3, h4, h5, fun hg => ?_⟩
+  have := makeLocal_of_identity hK x hg
+  exact ⟨this, by rw [this]; exact hI⟩
 
 /-! ## arclength -/
 
@@ -238,6 +265,57 @@ theorem crop_empty (x : Spline τ G W) (ta tb : τ) (loc : Bool) (h : tmin tb (t
 
 end General
 
+/-! ## Times in ℝ: Bernstein kernel, arclength as an integral -/
+
+section RealTime
+variable {G W : Type} [Group G]
+
+/-- `ConstantVelocity(v,T,ga)(t) = ga ∘ exp(t v)` for every degree K ≥ 1 WITHOUT the hypothesis `ConstVelKer`:
+    for a segment curve that is the ordered product `Πⱼ exp(B̃ⱼ(u) vⱼ)` (C11.value_is_product) with the code's
+    cumulative Bernstein basis `B̃ⱼ` (`Poly.cumulativeBasis .Bernstein K`), `ConstVelKer` follows from
+    `C20.sum_cumulative` (`Σⱼ B̃ⱼ(u) = K u`). -/
+theorem constant_velocity_law_bernstein (C : Ker ℝ G W) (hK : GroupKer C) (hKpos : 0 < C.K) (expo : ℝ → W → G)
+    (hzero : ∀ v, expo 0 v = 1) (hadd : ∀ a b v, expo (a + b) v = expo a v * expo b v)
+    (hprod : ∀ (s : ℝ) (v : W) (u : ℝ), C.c (List.replicate C.K (C.wsmul s v)) u =
+      ((List.range C.K).map fun j => expo (bernCum C.K j u * s) v).prod)
+    (v : W) {T : ℝ} (hT : 0 < T) (ga : G) {t : ℝ} (ht0 : 0 ≤ t) (ht : t ≤ T) :
+    val C (constantVelocity C v T ga) t = ga * expo t v :=
+  constant_velocity_general hK expo hKpos (constVelKer_bernstein C expo hzero hadd hprod) v hT ga ht0 ht
+
+/-- **arclength is the integral of the component-wise absolute body velocity** (vector-valued tangents
+    `W = ι → ℝ`, i.e. vector spaces and other commutative groups): for every spline satisfying the invariant and
+    every t, `arclength(t)` = Σ over the segments that start before `max(t,0)` of
+    `∫_{t_start}^{min(t, t_end)} |(Del/T)·c_V'(T0 + Del (s − t_start)/T)| ds` — the integrand is the body velocity
+    the spline reports on that segment.  Hypothesis `habs`: the per-segment integrator returns `∫_{ua}^{ub}|c_V'|`
+    (`arclength_integrator_of_C20`). -/
+theorem arclength_is_integral {ι : Type} (C : Ker ℝ G (ι → ℝ)) (σ : List (ι → ℝ) → ℝ → ι → ℝ)
+    (hadd : ∀ a b, C.wadd a b = a + b) (hzero : C.wzero = 0)
+    (habs : ∀ V (a b : ℝ) k, a ≤ b → C.absint V a b k = ∫ u in a..b, |σ V u k|)
+    (s : Spline ℝ G (ι → ℝ)) (hI : Inv C s) (t : ℝ) :
+    arclength C s t = arcSpec σ (max t 0) true 0 s.segs := by
+  have hmax : tmax t (TimeOps.zero : ℝ) = max t 0 := by
+    unfold tmax
+    simp only [tzero]
+    by_cases h : t < 0
+    · rw [if_pos h, max_eq_right (le_of_lt h)]
+    · rw [if_neg h, max_eq_left (not_lt.1 h)]
+  unfold arclength
+  rw [hmax]
+  simp only [tzero]
+  rw [arcFrom_eq C σ hadd habs (max t 0) s.segs s.g0 0 true C.wzero hI (fun _ => le_max_right _ _), hzero, zero_add]
+
+/-- `habs` holds for the code's integrator `integrate_absolute_polynomial` (model `Poly.integrateAbs`, property
+    C20) when `c_V'` is the quadratic it is given and its coefficients are outside the 1e-9 threshold bands -/
+theorem arclength_integrator_of_C20 {ι : Type} (C : Ker ℝ G (ι → ℝ)) (σ : List (ι → ℝ) → ℝ → ι → ℝ) (thr : ℝ) (hthr : 0 < thr)
+    (qA qB qC : List (ι → ℝ) → ι → ℝ)
+    (hint : ∀ V (a b : ℝ) k, C.absint V a b k = Poly.integrateAbs thr a b (qA V k) (qB V k) (qC V k))
+    (hσ : ∀ V u k, σ V u k = qA V k * u ^ 2 + qB V k * u + qC V k)
+    (hband : ∀ V k, thr ≤ |qA V k| ∨ (qA V k = 0 ∧ (thr < |qB V k| ∨ qB V k = 0))) :
+    ∀ V (a b : ℝ) k, a ≤ b → C.absint V a b k = ∫ u in a..b, |σ V u k| :=
+  absint_of_C20 C σ thr hthr qA qB qC hint hσ hband
+
+end RealTime
+
 /-! ## The former defects, now theorems about concrete instances (G = (ℚ,+), regression of the fixes) -/
 
 /-- x = [t on [0,1]; 1+2(t−1) on [1,2]]; crop(5/4, 7/4) from the SECOND segment: y(1/4) = x(3/2) − x(5/4) = 1/2
@@ -287,5 +365,26 @@ example : (∀ g, (kerQ 3).exp ((kerQ 3).log g) = g) ∧ (∀ w, (kerQ 3).exp ((
     (∀ a b c : ℚ, (kerQ 3).c [a, b, c] 1 = (kerQ 3).exp a * (kerQ 3).exp b * (kerQ 3).exp c) := by
   refine ⟨fun g => rfl, fun w => rfl, fun a b c => ?_⟩
   simp [Ker.c, kerQ, ofAdd_add, mul_assoc]
+
+/-- hypotheses of `constant_velocity_law_bernstein`: the kernel `kerBern K` over (ℝ,+) is an ordered product
+    with the cumulative Bernstein basis -/
+example : GroupKer (kerBern 4) ∧ (∀ v : ℝ, Multiplicative.ofAdd ((0 : ℝ) * v) = 1) ∧
+    (∀ s v u : ℝ, (kerBern 4).c (List.replicate (kerBern 4).K ((kerBern 4).wsmul s v)) u =
+      ((List.range (kerBern 4).K).map fun j => Multiplicative.ofAdd (bernCum (kerBern 4).K j u * s * v)).prod) :=
+  ⟨⟨rfl, fun _ _ => rfl, fun _ => rfl, fun V => by simp [Ker.c, kerBern, bernCum, C20B.cumulative_bernstein_at_zero, List.prod_eq_one]⟩,
+   fun v => by simp, kerBern_prod 4⟩
+/-- hypotheses of `arclength_is_integral` hold for the constant-speed kernel `kerArc` -/
+example : (∀ a b, kerArc.wadd a b = a + b) ∧ kerArc.wzero = 0 ∧
+    (∀ V (a b : ℝ) k, a ≤ b → kerArc.absint V a b k =
+      ∫ u in a..b, |(fun (V : List (Fin 1 → ℝ)) (_ : ℝ) (_ : Fin 1) => (V.map (· 0)).sum) V u k|) :=
+  ⟨fun _ _ => rfl, rfl, fun V a b k h => kerArc_abs V a b k h⟩
+/-- hypotheses of `fixed_cubic_end_velocities` in (ℚ,+): a kernel whose velocity output is `3·V₀` at 0, `3·V₂` at 1 -/
+example : ∃ C : Ker ℚ (Multiplicative ℚ) ℚ, (∀ s v, C.wsmul s v = s • v) ∧ (∀ v s, C.wdivs v s = s⁻¹ • v) ∧
+    (∀ a b c : ℚ, (C.cev [a, b, c] 0).2.1 = (3 : ℚ) • a) ∧ (∀ a b c : ℚ, (C.cev [a, b, c] 1).2.1 = (3 : ℚ) • c) :=
+  ⟨{ kerQ 3 with wdivs := fun v s => s⁻¹ * v,
+                 cev := fun V u => (Multiplicative.ofAdd (u * V.sum), (1 - u) * (3 * V.getD 0 0) + u * (3 * V.getD 2 0), 0) },
+   fun _ _ => rfl, fun _ _ => rfl, fun a b c => by simp, fun a b c => by simp⟩
+/-- `make_local_law` applies to X (two segments, starts at the identity) -/
+example : X.segs ≠ [] ∧ X.g0 = 1 := ⟨by decide +kernel, rfl⟩
 
 end C12
